@@ -38,7 +38,35 @@ def all_paths_pass(cfg, start, through, also_ok=()):
     return not (set(cfg.return_blocks()) & (reach - stop))
 
 
+def factor_step(ck, facts, R):
+    """SLG FACTOR: a positive literal resolved with an answer inherits that answer's `ambiguous` bit - in every answer mode."""
+    ck.rule(R, "K3 must-pass-through: in SolveState::merge_answer_into_strand every path from the Ok edge of apply_answer_subst to the "
+               "return passes a test of the merged answer's `ambiguous` bit (on whose true edge the strand becomes ambiguous - "
+               "AMBIG-PROP).  The early return that flounders ambiguous answers exists only for tables in AnswerMode::Complete; a "
+               "cyclic strand parked before its table switched to Ambiguous mode merges an ambiguous answer directly, and without "
+               "the test it publishes an unconditional answer resting on an unproven premise: SLG says Unique where the recursive "
+               "solver says No possible solution")
+    ma = need_body(ck, facts, R, ENG + "merge_answer_into_strand")
+    if not ma:
+        return
+    cfg = ma.cfg
+    is_res = lambda tr: tr.get("of", {}).get("kind") == "call" and callee_matches(tr["of"]["call"], "apply_answer_subst")
+    ok_edges = cfg.variant_edges(is_res, ["Ok"])
+    reads = sorted({e[0] for w in (True, False) for e in cfg.bool_edges(trace_is_field("chalk_engine::Answer.ambiguous"), w)})
+    ck.floor(R, "merge.apply_answer_subst-Ok-edges", len(ok_edges), 1)
+    for i, e in enumerate(ok_edges):
+        key = "merge_answer_into_strand:resolved-literal-inherits-ambiguity#%d" % i
+        if reads and all_paths_pass(cfg, e[1], reads):
+            ck.ok(R, key, "every path to the return tests answer.ambiguous")
+        else:
+            ck.violation(R, key, ma.where(cfg.blocks[e[0]]["t"].get("ln")),
+                         "after the answer substitution was applied the strand can return without looking at the answer's ambiguous bit")
+
+
 def run(ck, facts, tier):
+    factor_step(ck, facts, "C01.FACTOR")
+    from shared import identity as _idn
+    _idn.identity_predicates(ck, facts, "C01.TRIVIAL-IS-IDENTITY")
     from props.c03 import cycle_minimums
     cycle_minimums(ck, facts, "C01.CYCLE-MINIMUMS")
     from shared import fixedpoint as _fpx
